@@ -31,6 +31,7 @@ def gen(rng, tier, n):
         else:
             draft = "2020" if rng.random() < 0.65 else "7"
             c = gs.Ctx(rng, draft, depth=rng.choice([1, 2, 3]), meta=0.3, refs=False)
+            c.wild_ints = True
             doc = gs.gen_document(c, rng.choice(gs.D7_URIS) if draft == "7" else None)
             insts = [gs.gen_instance(rng, 2) for _ in range(4)]
             ops.append({"op": "roundtrip-doc", "args": {"doc": doc, "insts": insts},
